@@ -112,3 +112,48 @@ Example C12_example_current_tree :
   snd (run (init Single Current) [QStart FTcp false; QStart FNone false; QStop])
   = [OExc EOSError; OExc EUsage; OExc EUsage].
 Proof. vm_compute. reflexivity. Qed.
+
+(* ================= concurrent clause: remove / make in a second thread racing with stop() ================= *)
+(* Interleaving model of ConcModel.v (atomic regions of remove_rpc_object, _internal_make_rpc_object and
+   _stop_rpc_objects).  The theorems hold for EVERY interleaving (schedules of any shape) of the finitely many
+   instances listed: populations [$context], [$context,o1], [$context,o1,o2], [$context,o2,o1]; the other thread's
+   target = each of the names 0..3 (live or absent); constructor succeeding / raising.  The bound is in the statement. *)
+Require Import QV.Lib.LTS QV.C12.ConcModel QV.C12.ConcProofs.
+
+(* remove_rpc_object || stop: nothing is ever released twice; when both have finished stop() succeeded, the remover
+   succeeded or got the unknown-name error, every object was released exactly once, no thread, handler or map entry
+   is left; and until then somebody can always move (no deadlock).  Holds with the handler registered inside or
+   outside the publishing region. *)
+Theorem C12_conc_remove_stop : forall c order, In (c, order) remove_instances ->
+  forall s, Reachable c order R0 s ->
+    safe s = true /\ (done s = true -> good_final s = true) /\ (done s = false -> succ c s <> []).
+Proof. exact conc_remove_stop. Qed.
+Print Assumptions C12_conc_remove_stop.
+
+(* make_rpc_object / make_task || stop, with the handler registered inside the publishing region (the proposed
+   repair): same conclusion; the maker succeeds, or fails with invalid-operation / duplicate-name / its own
+   constructor error, and an object whose constructor ran is released exactly once *)
+Theorem C12_conc_make_stop_repaired : forall c order, In (c, order) make_instances ->
+  forall s, Reachable c order M0 s ->
+    safe s = true /\ (done s = true -> good_final s = true) /\ (done s = false -> succ c s <> []).
+Proof. exact conc_make_stop. Qed.
+Print Assumptions C12_conc_make_stop_repaired.
+
+(* the tree as it is (handler registered after the publishing region): there is an interleaving in which stop()
+   itself fails and the new object stays alive and unreleased *)
+Theorem C12_conc_make_stop_refuted :
+  exists s, Reachable (mkCfg false false 1 true) [0] M0 s /\ done s = true /\ good_final s = false /\
+            pa s = ADone false /\ thr (getob s 1) = true /\ relc (getob s 1) = 0.
+Proof. exact conc_make_stop_current_refuted. Qed.
+Print Assumptions C12_conc_make_stop_refuted.
+
+(* sensitivity of the model: if stop also dropped the reservations (`_rpc_object_map.clear()`), a racing remove
+   would fail with an unrelated error and leave its object unreleased *)
+Theorem C12_conc_remove_stop_if_reservations_dropped_refuted :
+  exists s, Reachable (mkCfg true true 1 true) [0; 1] R0 s /\ done s = true /\ good_final s = false /\
+            pb s = BDone BOther /\ thr (getob s 1) = true /\ relc (getob s 1) = 0.
+Proof. exact conc_remove_stop_clear_refuted. Qed.
+Print Assumptions C12_conc_remove_stop_if_reservations_dropped_refuted.
+
+Example C12_conc_example_instances : length remove_instances = 32 /\ length make_instances = 32.
+Proof. vm_compute. split; reflexivity. Qed.
